@@ -53,7 +53,7 @@ var loaders = []repository.ClockLoader{bug.ClockLoader}
 type pullInfo struct {
 	user    string
 	changed bool
-	expect map[entity.Id]map[string]bool // bug -> operations of both sides before the merge
+	expect  map[entity.Id]map[string]bool // bug -> operations of both sides before the merge
 }
 
 type model struct {
